@@ -54,6 +54,30 @@ fn main() {
         return;
     }
 
+    if cmd == "dump" {
+        // development aid: print the SSA form of one definition with the facts attached
+        use program_structure::cfg::IntoCfg;
+        let src = std::fs::read_to_string(&args[2]).expect("file");
+        let curve: program_structure::constants::Curve = args.get(3).map(|c| c.parse().unwrap()).unwrap_or_default();
+        let def = parser::parse_definition(&src).expect("one definition");
+        let mut reports = Vec::new();
+        let cfg = def.into_cfg(&curve, &mut reports).expect("cfg").into_ssa().expect("ssa");
+        for bb in cfg.iter() {
+            println!("block {} preds {:?} succs {:?}", bb.index(), bb.predecessors(), bb.successors());
+            for s in bb.iter() {
+                let extra = match s {
+                    program_structure::ir::Statement::Substitution { rhe, .. } => format!(
+                        "   [degree {:?} value {:?}]",
+                        rhe.meta().degree_knowledge().degree().map(|r| (r.start(), r.end())),
+                        rhe.meta().value_knowledge().get_reduces_to()
+                    ),
+                    _ => String::new(),
+                };
+                println!("    {s:?}{extra}");
+            }
+        }
+        return;
+    }
     if cmd == "genstats" {
         // development aid: which diagnostics do generated (unfaulted) projects draw?
         let env = Env::from_env("quick");
